@@ -92,19 +92,26 @@ theorem getBucketIndex_tie (s : Shape) (v : Nat) (hv : v ||| s.subBucketMask < 2
   have := bitLen_ge s v
   omega
 
+/-- shifts of the generated code on casts of naturals; the side conditions are linear, so `omega`
+    discharges them however the Go expressions are associated or commuted -/
+theorem shl_int (a k : Int) (n m : Nat) (ha : a = (n : Int)) (hk : k.toNat = m) :
+    a <<< k.toNat = ((n <<< m : Nat) : Int) := by subst ha; subst hk; exact shl_cast _ _
+theorem shr_int (a k : Int) (n m : Nat) (ha : a = (n : Int)) (hk : k.toNat = m) :
+    a >>> k.toNat = ((n >>> m : Nat) : Int) := by subst ha; subst hk; rfl
+
 /-- `getSubBucketIdx` -/
 theorem getSubBucketIdx_tie (s : Shape) (v b : Nat) :
     (genHist s).getSubBucketIdx (v : Int) (b : Int) = (s.subBucketIdx v b : Int) := by
   unfold Histogram.getSubBucketIdx Shape.subBucketIdx genHist
-  have e : ((b : Int) + (s.unitMag : Int)).toNat = b + s.unitMag := by omega
-  simp only [e]; rfl
+  dsimp only
+  exact shr_int _ _ v (b + s.unitMag) rfl (by omega)
 
 /-- `countsIndex` (the Go code subtracts before adding; no intermediate result is observable) -/
 theorem countsIndex_tie (s : Shape) (b sb : Nat) :
     (genHist s).countsIndex (b : Int) (sb : Int) = (s.countsIndex b sb : Int) := by
   unfold Histogram.countsIndex Shape.countsIndex genHist
-  have e : ((b : Int) + 1) = ((b + 1 : Nat) : Int) := by omega
-  simp only [Int.toNat_natCast, e, shl_cast]
+  dsimp only
+  rw [shl_int _ _ (b + 1) s.halfMag (by omega) (by omega)]
   have h1 : s.subBucketHalfCount ≤ (b + 1) <<< s.halfMag := by
     rw [s.subBucketHalfCount_eq, Nat.shiftLeft_eq]
     exact Nat.le_mul_of_pos_left _ (by omega)
@@ -114,8 +121,8 @@ theorem countsIndex_tie (s : Shape) (b sb : Nat) :
 theorem valueFromIndex_tie (s : Shape) (b sb : Nat) :
     (genHist s).valueFromIndex (b : Int) (sb : Int) = (s.valueFromIndex b sb : Int) := by
   unfold Histogram.valueFromIndex Shape.valueFromIndex genHist
-  have e : ((b : Int) + (s.unitMag : Int)).toNat = b + s.unitMag := by omega
-  simp only [e, shl_cast]
+  dsimp only
+  exact shl_int _ _ sb (b + s.unitMag) rfl (by omega)
 
 /-- `countsIndexFor` -/
 theorem countsIndexFor_tie (s : Shape) (v : Nat) (hv : v ||| s.subBucketMask < 2 ^ 63) :
@@ -128,9 +135,7 @@ theorem sizeOfRange_tie (s : Shape) (v : Nat) (hv : v ||| s.subBucketMask < 2 ^ 
     (genHist s).sizeOfEquivalentValueRange (v : Int) = (s.sizeOfRange v : Int) := by
   unfold Histogram.sizeOfEquivalentValueRange Shape.sizeOfRange
   simp only [getBucketIndex_tie s v hv]
-  have e : (((genHist s).unitMagnitude : Int) + (s.bucketIdx v : Int)).toNat = s.unitMag + s.bucketIdx v := by
-    simp only [genHist]; omega
-  simp only [e]
+  exact shl_int _ _ 1 (s.unitMag + s.bucketIdx v) rfl (by simp only [genHist]; omega)
 
 /-- `lowestEquivalentValue` -/
 theorem lowestEquiv_tie (s : Shape) (v : Nat) (hv : v ||| s.subBucketMask < 2 ^ 63) :
@@ -157,8 +162,7 @@ theorem medianEquiv_tie (s : Shape) (v : Nat) (hv : v ||| s.subBucketMask < 2 ^ 
     (genHist s).medianEquivalentValue (v : Int) = (s.medianEquiv v : Int) := by
   unfold Histogram.medianEquivalentValue Shape.medianEquiv
   rw [lowestEquiv_tie s v hv, sizeOfRange_tie s v hv]
-  have e : ((s.sizeOfRange v : Int) >>> Int.toNat 1) = ((s.sizeOfRange v >>> 1 : Nat) : Int) := rfl
-  rw [e]; omega
+  rw [shr_int _ 1 (s.sizeOfRange v) 1 rfl rfl]; omega
 
 end Hdr
 end FunProofs.GenTie
